@@ -33,16 +33,17 @@ HandshakeT == S => /\ X.tamper.phase = "auth" => X.hsErrR # ""
                    /\ X.tamper.phase \in {"none", "frames"} => Up /\ X.idI /\ X.idR
                    /\ ~Up => X.delivered = <<>>
 \* "what one side writes is what the other reads, and any bit flipped on the wire is detected before delivery"
-AuthenticT == S /\ Up => /\ IsPrefix(X.delivered, X.sent)
+AuthenticT == S /\ Up /\ X.pipeErr = "" =>        \* (pipeErr: the driver's own pipe write failed - nothing to judge)
+              /\ IsPrefix(X.delivered, X.sent)
                          /\ Len(X.delivered) = X.firstBad - 1
                          /\ X.err # ""                       \* the stream ends (altered, or closed by the writer): the reader is told
 \* the writer refuses what does not fit a frame, and nothing else
 SizeLimitT == S /\ Up => /\ \A k \in 1..Len(X.sent) : X.sent[k].size <= MaxMsg
                          /\ \A k \in 1..Len(X.delivered) : X.delivered[k].size <= MaxMsg
 \* no wedge: handshakes end within the handshake deadline (5 s) and reads end when the stream does
-NoWedgeT == /\ S => X.hsMs < 9000 /\ X.readMs < 25000
-            /\ X.e = "hostile" => X.ms < 25000
-            /\ X.e = "hostile-hs" => X.ms < 9000
+NoWedgeT == /\ S => X.hsMs < 120000 /\ ~X.wedge     \* (the handshake deadline is 5 s; a wedge is "never", not "slowly")
+            /\ X.e = "hostile" => X.ms < 600000
+            /\ X.e = "hostile-hs" => X.ms < 120000
 
 H == X.e = "hostile"
 \* a peer with valid secrets: malformed or oversized content is an error, well-formed content is delivered as written
@@ -51,10 +52,10 @@ HostileT == H => /\ X.expect = "error" => X.err # "" /\ X.delivered = <<>>
 \* "... or makes it allocate beyond the protocol's size limits": one message is at most 16 MiB; reading it (frame buffer, decompression,
 \* payload copy) stays within a small multiple of that, whatever length the peer announces
 AllocT == /\ H => X.alloc <= 268435456
-          /\ X.e = "hostile-hs" => X.alloc <= 1048576
+          /\ X.e = "hostile-hs" => X.alloc <= 16777216
 
 HS == X.e = "hostile-hs"
 HostileHsT == HS => /\ X.class = "valid" => X.err = ""
-                    /\ X.class = "reject" => X.err # "" /\ X.ms < 4000      \* rejected on its own evidence, not by the deadline
+                    /\ X.class = "reject" => X.err # "" /\ ~X.timedOut       \* rejected on its own evidence, not by the deadline
                     /\ X.class = "any" => TRUE
 =============================================================================
